@@ -743,9 +743,12 @@ def argsort(it, x):
     fact(run, QA(n, lambda t: z3.And(p(t) >= 0, p(t) < nz, q(p(t)) == t)))
     fact(run, QA(n, lambda j: z3.And(q(j) >= 0, q(j) < nz, p(q(j)) == j)))
     if x.dtype == 'float':
-        fact(run, QA2(n, lambda a, b: z3.Or(xreal.is_nan(f(p(b))), xreal.le(f(p(a)), f(p(b))))))
+        sf = QA2(n, lambda a, b: z3.Or(xreal.is_nan(f(p(b))), xreal.le(f(p(a)), f(p(b)))))
     else:
-        fact(run, QA2(n, lambda a, b: zi(f(p(a))) <= zi(f(p(b)))))
+        sf = QA2(n, lambda a, b: zi(f(p(a))) <= zi(f(p(b))))
+    fact(run, sf)
+    if z3.is_expr(sf):
+        run.__dict__.setdefault('np_fact_tags', {})[sf.get_id()] = 'sorted'     # ghost: lets a contract select relevant facts
     r = NDArray((n,), 'int', lambda t: p(t))
     r.perm = (p, q, n, 0)
     run.__dict__.setdefault('np_argsorts', []).append((x, p, q, n))
